@@ -539,6 +539,8 @@ class OnionWorld:
                 nm = next(n for n, o in world.ov.items() if o is self)
                 world.held_joins.append((nm, create_payload.circuit_id, world.delivering, fut))
                 await fut
+                if world.suspend_join == "own":
+                    return True       # an application's own admission policy (the docstring invites overriding without super())
                 return await super().should_join_circuit(create_payload, previous_node_address)
         SuspendingTunnelCommunity.__name__ = cls.__name__
         return SuspendingTunnelCommunity
@@ -565,6 +567,9 @@ class OnionWorld:
             self.escaped.append({"seq": seq, "exc": type(exc).__name__, "site": site, "msg": str(exc)[:200]})
         ev = self.log("Deliver", id=seq)
         self._auto_transports()
+        if getattr(self, "auto_resume", False):
+            for nm, rc, k, _f in list(self.held_joins):
+                self.join_resume(nm, self.cid(rc), k)
         return ev
 
     def lose(self, seq):
